@@ -218,6 +218,9 @@ func replay(tr *Trace, transport string, rep *Report) Replay {
 	var kernel, details []string
 	for i, st := range tr.Steps {
 		hint := st.Expect
+		if transport == "unix" && st.UnixBoth != "" {
+			hint = st.UnixBoth
+		}
 		if transport == "unix" && st.UnixKernel != "" {
 			hint = st.UnixKernel
 		}
@@ -233,11 +236,16 @@ func replay(tr *Trace, transport string, rep *Report) Replay {
 	for i, st := range tr.Steps {
 		sr := StepResult{Index: i, Step: st.String(), Expect: st.Expect, Model: model[i], Kernel: kernel[i], Status: "agree"}
 		gapHere := st.Gap != "" && (st.GapOn == "" || st.GapOn == transport)
+		expect := st.Expect
+		if transport == "unix" && st.UnixBoth != "" {
+			expect = st.UnixBoth
+			sr.Expect = expect
+		}
 		switch {
-		case st.Expect != "" && model[i] != st.Expect:
+		case expect != "" && model[i] != expect:
 			sr.Status = "MISMATCH"
 			if first {
-				mismatch(i, "model %s kernel %s (%s; the corpus expects %s)", model[i], kernel[i], st, st.Expect)
+				mismatch(i, "model %s kernel %s (%s; the corpus expects %s)", model[i], kernel[i], st, expect)
 			}
 		case kernel[i] == model[i]:
 			if gapHere {
